@@ -214,7 +214,8 @@ def run_driver(binpath, args, stdin_path=None, timeout=3600, env=None, ok_codes=
             except ValueError:
                 pass
     if r.returncode not in ok_codes:
-        raise Infra("driver %s %s exit %d:\n%s" % (binpath, args, r.returncode, r.stderr[-4000:]))
+        said = [o for o in outs if o.get("infra") or "what" in o][-3:]
+        raise Infra("driver %s %s exit %d: %s\n%s" % (binpath, args, r.returncode, json.dumps(said)[:1500], r.stderr[-4000:]))
     return r.returncode, outs, r.stderr[-4000:]
 
 
